@@ -282,7 +282,15 @@ static int recv_events(m_ctx_t *c, int timeout) {
                         msg_consumed = true;
                     } else {
                         M_INFO("PoisonPilling '%s'.\n", mod->name);
-                        stop(mod, true);
+                        M_MEM_LOCK(mod, {
+                            /* Whatever was received before the pill must be delivered before stopping */
+                            m_queue_t *evts = mod->batch.events;
+                            mod->batch.events = m_queue_new(mem_dtor);
+                            call_pubsub_cb(mod, evts);
+                            if (m_mod_is(mod, M_MOD_RUNNING)) {
+                                stop(mod, true);
+                            }
+                        });
                     }
                 }
             }
